@@ -100,6 +100,8 @@ pub struct CpPlan {
     pub members: Vec<DMember>,
     /// Into instructions carry `..upd_<name>()`
     pub update: bool,
+    /// From instructions carry `..upd_s_<name>()`: some ghost members of S have no default and take their value from it
+    pub from_update: bool,
     pub form: &'static str,
 }
 
@@ -349,7 +351,22 @@ fn gen_cp(t: &mut Tape, plan: &mut StructPlan, ci: usize, ncp: usize) -> CpPlan 
         update = false;
     }
     let _ = &mut cells;
-    CpPlan { name, shape, hint, cells, roles, members, update, form }
+    // From with struct update syntax: ghost members of a named S may then go without a default
+    let mut from_update = false;
+    if has_from && plan.shape == Shape::Named && !unit_target && roles.iter().any(|r| matches!(r, Role::Ghost { .. })) && t.chance(1, 2) {
+        from_update = true;
+        let mut stripped = false;
+        for r in roles.iter_mut() {
+            if let Role::Ghost { owned, by_ref } = r {
+                if !stripped || t.coin() {
+                    *owned = None;
+                    *by_ref = None;
+                    stripped = true;
+                }
+            }
+        }
+    }
+    CpPlan { name, shape, hint, cells, roles, members, update, from_update, form }
 }
 
 // ------------------------------------------------------------------------------------------------
@@ -543,7 +560,7 @@ fn trait_instrs(t: &mut Tape, cp: &CpPlan, labels: &mut Vec<String>) -> Vec<Inst
         if !cp.cells[f].iter().any(|x| *x) {
             continue;
         }
-        let names: Vec<String> = if cp.update {
+        let names: Vec<String> = if cp.update || cp.from_update {
             // `..upd()` must sit on instructions that only produce Into impls: cover the three groups separately
             let mut v = vec![];
             for group in [[FO, FR], [OI, RI], [OIE, RIE]] {
@@ -564,6 +581,9 @@ fn trait_instrs(t: &mut Tape, cp: &CpPlan, labels: &mut Vec<String>) -> Vec<Inst
             let mut params = vec![];
             if cp.update && ks.iter().any(|k| *k == OI || *k == RI) && !name.contains("existing") {
                 params.push(TParam::Update(format!("upd_{}()", cp.name)));
+            }
+            if cp.from_update && ks.iter().any(|k| *k == FO || *k == FR) {
+                params.push(TParam::Update(format!("upd_s_{}()", cp.name)));
             }
             if ks.len() > 1 {
                 labels.push("trait-shortcut".into());
@@ -634,6 +654,7 @@ fn ref_from(plan: &StructPlan, cp: &CpPlan) -> String {
     let mut vals = vec![];
     for (i, f) in plan.fields.iter().enumerate() {
         let v = match &cp.roles[i] {
+            Role::Ghost { owned: None, .. } if cp.from_update => format!("{}", -(7700 + i as i64)),
             Role::Ghost { owned, by_ref } => format!("if owned {{ {} }} else {{ {} }}", owned.unwrap_or(0), by_ref.or(*owned).unwrap_or(0)),
             Role::GhostFor { owned_side, default, d, .. } => {
                 let src = acc("value", &cp.members[*d].name);
@@ -713,6 +734,9 @@ pub fn render(t: &mut Tape, plan: &StructPlan, core_only: bool) -> E2Case {
         facts.push(format!("form:{}", cp.form));
         if cp.update {
             labels.push("update".into());
+        }
+        if cp.from_update {
+            labels.push("from-update".into());
         }
         type_instrs.extend(trait_instrs(t, cp, &mut labels));
         let ded = if ncp > 1 || (cp.shape != DShape::BareTuple && t.chance(1, 5)) { Some(cp.ty_text()) } else { None };
@@ -826,6 +850,10 @@ pub fn render(t: &mut Tape, plan: &StructPlan, core_only: bool) -> E2Case {
         let _ = write!(h, "pub fn upd_{}() -> {} {{ {} }}\n", cp.name, cp.ty_text(), d_lit(cp, &sent));
         let dvals: Vec<String> = (0..cp.members.len()).map(|j| format!("{}", 5000 + 41 * j as i64 + (t.below(30) as i64))).collect();
         let _ = write!(h, "pub fn mk_{}() -> {} {{ {} }}\n", cp.name, cp.ty_text(), d_lit(cp, &dvals));
+        if cp.from_update {
+            let sent: Vec<String> = (0..plan.fields.len()).map(|i| format!("{}", -(7700 + i as i64))).collect();
+            let _ = write!(h, "pub fn upd_s_{}() -> S {{ {} }}\n", cp.name, s_lit(plan, &sent));
+        }
         if cp.has(FO) || cp.has(FR) {
             let _ = write!(h, "{}\n", ref_from(plan, cp));
         }
